@@ -298,6 +298,85 @@ func runL3History(r *vf.Run, bc *blobCase, a *alteration, store string, first, s
 	kernelReads(r, bc, a, mp2, plan, key, "fs.Mount history ["+hs+"], second mount carries the right digest", replay)
 }
 
+// runL3Retry: a retried Mount of a layer whose prefetch has already seen (and cached) an
+// altered chunk. Mount #1 carries no TOC digest (refused by fs.Mount, but the layer stays in
+// the resolver cache and its prefetch runs); Mount #2 with the right digest is then
+// legitimately refused ("content error occurs during caching contents") once prefetch
+// has recorded the bad chunk; Mount #3 is the retry and must not fare better. Whatever the
+// outcomes (prefetch timing is not controlled here), a Mount that returns nil with the
+// right digest puts every later read under clause (ii).
+func runL3Retry(r *vf.Run, bc *blobCase, a *alteration, store string, seq *int) {
+	*seq++
+	r.Eval(1)
+	desc := fmt.Sprintf("L3retry %s | %s | %s", bc, a.Desc, store)
+	replay := map[string]any{"level": "L3", "blob": bc.String(), "alteration": a.Desc, "store": store,
+		"mount_history": []string{"no-toc-digest (refused, layer stays cached, prefetch runs)", "right-digest", "right-digest (retry)", "right-digest (retry)"}, "tar": gen0(bc)}
+	f, err := newL3FS(r, bc, a, store, false, false, *seq)
+	if err != nil {
+		r.Inconclusive("L3 setup: " + firstLine(err.Error()))
+		return
+	}
+	defer f.done()
+	ctx := context.Background()
+	mp0 := filepath.Join(f.root, "mnt0")
+	os.MkdirAll(mp0, 0o755)
+	var e0 error
+	if !r.Watchdog(2*time.Minute, "L3 Mount", func() { e0 = f.fs.Mount(ctx, mp0, f.labels(bc, l3Modes[0])) }) {
+		forceUnmount(mp0)
+		return
+	}
+	if e0 == nil {
+		f.fs.Unmount(ctx, mp0)
+		return // judged by the matrix
+	}
+	// let the prefetch of the cached layer finish: registry traffic quiescent (bounded wait;
+	// only decides how interesting the case is, never a verdict)
+	last, stable := f.reg.Requests(), 0
+	for i := 0; i < 400 && stable < 30; i++ {
+		time.Sleep(10 * time.Millisecond)
+		if n := f.reg.Requests(); n == last {
+			stable++
+		} else {
+			last, stable = n, 0
+		}
+	}
+	right := f.labels(bc, l3Modes[2])
+	var outcomes []string
+	refused := false
+	for k := 1; k <= 3; k++ {
+		mp := filepath.Join(f.root, fmt.Sprintf("mnt%d", k))
+		os.MkdirAll(mp, 0o755)
+		var me error
+		if !r.Watchdog(2*time.Minute, "L3 Mount", func() { me = f.fs.Mount(ctx, mp, right) }) {
+			forceUnmount(mp)
+			return
+		}
+		outcomes = append(outcomes, fmt.Sprint(me == nil))
+		if me != nil {
+			refused = true
+			r.Distinct("l3_mount_errors", trimErr(me))
+			continue
+		}
+		key := "ii:read-returns-altered-bytes:L3:" + a.Class
+		what := "mounted with the right digest"
+		if refused {
+			key = "ii:read-returns-altered-bytes:L3:after-verify-retry"
+			what = fmt.Sprintf("Mount with the right digest was refused, retry #%d returned nil", k-1)
+		}
+		plan := bc.readPlan(a, r.RNG(0x9EB6, uint64(*seq)), 3)
+		kernelReads(r, bc, a, mp, plan, key, what, replay)
+		if f.fs.Unmount(ctx, mp) != nil {
+			forceUnmount(mp)
+		}
+		break
+	}
+	r.Distinct("l3_retry_outcomes", "no-digest=refused ; right-digest x3 => "+strings.Join(outcomes, ","))
+	if refused {
+		r.NonTrivial(desc)
+		r.Count("l3_retry_cases_with_a_refused_right_digest_mount", 1)
+	}
+}
+
 func stageL3(r *vf.Run) {
 	if err := fuseProbe(); err != nil {
 		r.Set("l3", "skipped(capability): "+err.Error())
@@ -329,6 +408,13 @@ func stageL3(r *vf.Run) {
 		}
 		if ok2 {
 			runL3Matrix(r, bc, "toc-altered", toc, store, &seq)
+		}
+		// retried mounts after prefetch saw an altered chunk (all file data prioritized)
+		if pb, err := buildBlobMode(r, 4100+bi, compressionFor(bi), true, true); err == nil {
+			if pa, ok := digestOnlyAlteration(r, pb, 5); ok {
+				runL3Retry(r, pb, pa, store, &seq)
+				runL3Retry(r, pb, pa, []string{"db", "memory"}[bi%2], &seq)
+			}
 		}
 		if bi == 0 {
 			r.Sample(map[string]any{"level": "L3", "blob": bc.String(), "label_matrix": len(l3Modes), "variants": []string{"genuine", "chunk-altered", "toc-altered"}})
